@@ -16,6 +16,8 @@ import math
 from fractions import Fraction
 import z3
 
+from . import fp as _fp
+
 
 class Unsupported(Exception):
     """The engine cannot model this soundly; the run is inconclusive (never a pass)."""
@@ -55,7 +57,11 @@ def is_z(x):
 
 def is_sym(x):
     """True if the element is not a plain concrete value."""
-    return isinstance(x, (z3.ExprRef, Ind, XR))
+    return isinstance(x, (z3.ExprRef, Ind, XR, _fp.FP))
+
+
+def _anyfp(*xs):
+    return any(isinstance(x, _fp.FP) for x in xs)
 
 
 def mark_ind(p):
@@ -170,6 +176,8 @@ def as_num(a):
 
 def tob(v):
     """Boolean view (x != 0) usable as a branch condition: Python bool or z3 Bool."""
+    if isinstance(v, _fp.FP):
+        return _fp.tob(v)
     if isinstance(v, Ind):
         return rv(v.p) == 1
     if isinstance(v, XR):
@@ -284,10 +292,14 @@ def _anyx(*xs):
 
 
 def isnan(x):
+    if isinstance(x, _fp.FP):
+        return _fp.isnan(x)
     return x.nan if isinstance(x, XR) else False
 
 
 def isinf(x):
+    if isinstance(x, _fp.FP):
+        return _fp.isinf(x)
     return bor(x.pinf, x.ninf) if isinstance(x, XR) else False
 
 
@@ -399,6 +411,8 @@ def _cmp(op, a, b):
 
 # ------------------------------------------------------------- public arithmetic
 def add(a, b):
+    if _anyfp(a, b):
+        return _fp.add(a, b)
     if _anyx(a, b):
         an, ap, am, av = split(a)
         bn, bp, bm, bvv = split(b)
@@ -409,12 +423,16 @@ def add(a, b):
 
 
 def neg(a):
+    if isinstance(a, _fp.FP):
+        return _fp.neg(a)
     if isinstance(a, XR):
         return XR(a.nan, a.ninf, a.pinf, _neg(a.val))
     return _neg(as_num(a))
 
 
 def sub(a, b):
+    if _anyfp(a, b):
+        return _fp.sub(a, b)
     if _anyx(a, b):
         return add(a, neg(b))
     return _sub(as_num(a), as_num(b))
@@ -430,6 +448,8 @@ def _sign_flags(x):
 
 
 def mul(a, b):
+    if _anyfp(a, b):
+        return _fp.mul(a, b)
     if _anyx(a, b):
         an, ainf, apos, aneg, azero, av = _sign_flags(a)
         bn, binf, bpos, bneg, bzero, bvv = _sign_flags(b)
@@ -449,6 +469,8 @@ DIV_HOOK = [None]  # engine installs a callable(term_b) to receive side conditio
 
 
 def div(a, b):
+    if _anyfp(a, b):
+        return _fp.div(a, b)
     if _anyx(a, b) or (DIV_POLICY[0] == "xr" and is_z(as_num(b))) or (not is_sym(b) and as_num(b) == 0):
         an, ainf, apos, aneg, azero, av = _sign_flags(a)
         bn, binf, bpos, bneg, bzero, bvv = _sign_flags(b)
@@ -469,6 +491,8 @@ def div(a, b):
 
 
 def lt(a, b):
+    if _anyfp(a, b):
+        return _fp.lt(a, b)
     if _anyx(a, b):
         an, ap, am, av = split(a)
         bn, bp, bm, bvv = split(b)
@@ -484,6 +508,8 @@ def gt(a, b):
 
 
 def le(a, b):
+    if _anyfp(a, b):
+        return _fp.le(a, b)
     if _anyx(a, b):
         return bor(lt(a, b), eq(a, b))
     return _cmp(lambda s, t: s <= t, a, b)
@@ -494,6 +520,8 @@ def ge(a, b):
 
 
 def eq(a, b):
+    if _anyfp(a, b):
+        return _fp.eq(a, b)
     if _anyx(a, b):
         an, ap, am, av = split(a)
         bn, bp, bm, bvv = split(b)
@@ -528,6 +556,8 @@ def ne(a, b):
 
 def ite(c, a, b):
     """General if-then-else; c is a boolean element."""
+    if _anyfp(a, b):
+        return _fp.ite(tob(c), a, b)
     if isinstance(c, Ind):
         if _anyx(a, b):
             return ite(bv(c), a, b)
@@ -558,6 +588,8 @@ def ite(c, a, b):
 
 def lift1(core, name):
     def f(a):
+        if isinstance(a, _fp.FP):
+            return _fp.round_int(a, name.rstrip("_"))
         if isinstance(a, XR):
             return XR(a.nan, a.pinf, a.ninf, core(a.val))
         return core(as_num(a))
@@ -615,12 +647,16 @@ trunc_ = lift1(_trunc, "trunc_")
 
 
 def abs_(a):
+    if isinstance(a, _fp.FP):
+        return _fp.abs_(a)
     if isinstance(a, XR):
         return XR(a.nan, bor(a.pinf, a.ninf), False, _abs(a.val))
     return _abs(as_num(a))
 
 
 def sign_(a):
+    if isinstance(a, _fp.FP):
+        return _fp.sign(a)
     if isinstance(a, XR):
         raise Unsupported("sign of non-finite")
     a = as_num(a)
@@ -635,6 +671,10 @@ FINITE_HOOK = [None]   # engine installs callable(flag_term) -> True when the fl
 
 def to_int(a):
     """float -> int conversion (truncation toward zero); int stays."""
+    if isinstance(a, _fp.FP):
+        if _fp.is_const(a):
+            return math.trunc(_fp.to_float(a))
+        raise Unsupported("conversion of a symbolic float32 element to an integer")
     if isinstance(a, XR):
         flags = bor(a.nan, bor(a.pinf, a.ninf))
         if is_z(flags) and FINITE_HOOK[0] is not None and FINITE_HOOK[0](flags):
@@ -652,7 +692,7 @@ def to_int(a):
 
 
 def to_real(a):
-    if isinstance(a, XR):
+    if isinstance(a, (XR, _fp.FP)):
         return a
     a = as_num(a)
     if not is_z(a):
@@ -662,6 +702,8 @@ def to_real(a):
 
 def remainder(a, b):
     """Python / torch.remainder: result has the sign of the divisor."""
+    if _anyfp(a, b):
+        raise Unsupported("remainder of float32 elements (bit-exact mode)")
     if _anyx(a, b):
         raise Unsupported("remainder of non-finite")
     a, b = as_num(a), as_num(b)
@@ -676,6 +718,8 @@ def remainder(a, b):
 
 
 def floordiv(a, b):
+    if _anyfp(a, b):
+        raise Unsupported("floor_divide of float32 elements (bit-exact mode)")
     if _anyx(a, b):
         raise Unsupported("floor_divide of non-finite")
     a, b = as_num(a), as_num(b)
@@ -689,6 +733,8 @@ def floordiv(a, b):
 
 
 def minimum(a, b):
+    if _anyfp(a, b):
+        return _fp.minimum(a, b)
     if _anyx(a, b):
         an, bn = isnan(a), isnan(b)
         r = ite(lt(b, a), b, a)
@@ -699,6 +745,8 @@ def minimum(a, b):
 
 
 def maximum(a, b):
+    if _anyfp(a, b):
+        return _fp.maximum(a, b)
     if _anyx(a, b):
         an, bn = isnan(a), isnan(b)
         r = ite(lt(a, b), b, a)
@@ -709,6 +757,12 @@ def maximum(a, b):
 
 
 def clamp(v, lo, hi):
+    if _anyfp(v, lo, hi):
+        if lo is not None:
+            v = _fp.maximum(v, lo)
+        if hi is not None:
+            v = _fp.minimum(v, hi)
+        return v
     if lo is not None:
         v = maximum(v, lo) if not isinstance(v, XR) else ite(isnan(v), v, maximum(v, lo))
     if hi is not None:
@@ -742,6 +796,8 @@ _PYF = {
 
 def _uf1(name, exact=None):
     def f(a):
+        if isinstance(a, _fp.FP):
+            return _fp.uf1(name, a)
         if isinstance(a, XR):
             if name == "exp":
                 return mkx(a.nan, a.pinf, False, ite(a.ninf, 0, f(a.val)))
@@ -773,6 +829,13 @@ sigmoid_ = _uf1("sigmoid")
 
 
 def pow_(a, b):
+    if _anyfp(a, b):
+        if not is_sym(b) and Fraction(b).denominator == 1 and 0 <= Fraction(b) <= 4:
+            r = _fp.val(1.0)
+            for _ in range(int(b)):
+                r = _fp.mul(r, a)
+            return r
+        raise Unsupported("pow of float32 elements with a non-small-integer exponent (bit-exact mode)")
     if _anyx(a, b):
         raise Unsupported("pow of a possibly non-finite value")
     a, b = as_num(a), as_num(b)
@@ -794,6 +857,8 @@ def pow_(a, b):
 
 
 def gammaincc_(a, x):
+    if _anyfp(a, x):
+        raise Unsupported("gammaincc of float32 elements (bit-exact mode)")
     if _anyx(a, x):
         raise Unsupported("gammaincc of a possibly non-finite value")
     a, x = as_num(a), as_num(x)
@@ -816,6 +881,12 @@ def kind_of(dtype):
 
 
 def cast_kind(x, ks, kd):
+    if isinstance(x, _fp.FP):
+        if kd == "b":
+            return tob(x)
+        if kd == "i":
+            return to_int(x)
+        return x
     if kd == "b":
         if isinstance(x, (Ind, bool)) or (is_z(x) and z3.is_bool(x)):
             return x
@@ -846,11 +917,13 @@ def fix_kind(x, k):
     if k == "b":
         return cast_kind(x, "?", "b")
     if k == "f":
-        if isinstance(x, XR):
+        if isinstance(x, (XR, _fp.FP)):
             return x
         if isinstance(x, (Ind, bool)) or (is_z(x) and z3.is_bool(x)):
             return cast_kind(x, "b", "f")
         return to_real(x)
+    if isinstance(x, _fp.FP):
+        raise Unsupported("float32 element in an integer tensor without an explicit cast")
     if isinstance(x, XR):
         raise Unsupported("non-finite value in an integer tensor")
     if isinstance(x, (Ind, bool)) or (is_z(x) and z3.is_bool(x)):
@@ -863,6 +936,8 @@ def fix_kind(x, k):
 # ------------------------------------------------------------------- equality obligations
 def same(a, b):
     """Obligation 'elements are equal' where NaN equals NaN (for comparing states)."""
+    if _anyfp(a, b):
+        return _fp.same(a, b)
     if _anyx(a, b):
         an, ap, am, av = split(a)
         bn, bp, bm, bvv = split(b)
@@ -885,6 +960,8 @@ def z3_of(x):
     """A z3 term for a finite element (used in models / printing)."""
     if isinstance(x, Ind):
         return rv(x.p)
+    if isinstance(x, _fp.FP):
+        return x.t
     if isinstance(x, XR):
         raise Unsupported("z3_of(XR)")
     if is_z(x):
